@@ -36,6 +36,7 @@ type Service struct {
 	monitor                    metrics.Service
 	processConcurrency         int64
 	slotsPerEpoch              uint64
+	maxValidatorsPerCommittee  uint64
 	chainTime                  chaintime.Service
 	validatingAccountsProvider accountmanager.ValidatingAccountsProvider
 	attestationDataProvider    eth2client.AttestationDataProvider
@@ -77,11 +78,20 @@ func New(ctx context.Context, params ...Parameter) (*Service, error) {
 		return nil, errors.New("SLOTS_PER_EPOCH of unexpected type")
 	}
 
+	// The maximum committee size bounds the aggregation bits of the attestations we create.
+	maxValidatorsPerCommittee := uint64(2048)
+	if tmp, exists := spec["MAX_VALIDATORS_PER_COMMITTEE"]; exists {
+		if val, ok := tmp.(uint64); ok && val > 0 {
+			maxValidatorsPerCommittee = val
+		}
+	}
+
 	s := &Service{
 		log:                        log,
 		monitor:                    parameters.monitor,
 		processConcurrency:         parameters.processConcurrency,
 		slotsPerEpoch:              slotsPerEpoch,
+		maxValidatorsPerCommittee:  maxValidatorsPerCommittee,
 		chainTime:                  parameters.chainTime,
 		validatingAccountsProvider: parameters.validatingAccountsProvider,
 		attestationDataProvider:    parameters.attestationDataProvider,
